@@ -169,7 +169,8 @@ fn main() {
             out.count("skipped:static-error");
             out.count(&format!("reject:{}", res));
             if let Some(k) = fam {
-                out.count(&format!("family-rejected:{}", k));
+                let _ = k;
+                out.count("skipped:family-static-error");
             }
             if std::env::var("C01_DUMP").is_ok() {
                 use std::io::Write;
